@@ -1021,7 +1021,8 @@ CHECK = Check(
     level="exploration",
     rule=(
         "case = program AST (<= 14 nodes besides the observation marks, depth <= 4, <= 2 task-group children) over "
-        "Sleep/Checkpoint/Scope(5 public constructors, deadline)/Shield/scope.cancel()/scope.reschedule()/task-group "
+        "Sleep/Checkpoint/wait on a future that fails (error handled)/Scope(5 public constructors, deadline)/Shield (body may end "
+        "with a handled error)/scope.cancel()/scope.reschedule()/task-group "
         "children + optional external task.cancel() at a generated virtual time (and loop-turn offset in the tie class), "
         "run on the virtual-time loop; non-trivial = (lexical scope nesting >= 2 and a scope exits with cancel_called() "
         "while another scope is active or was active inside it) or (an ignore_cancellation block ends with a cancellation "
